@@ -49,8 +49,9 @@ Script(i) ==
 VARIABLES pos,         \* per connection: packets captured so far
           sessions,    \* sequence of [proto, c, s, ccids, scids, conn (ghost: creator)]
           delivered,   \* per session: sequence of [conn, k, isserver, cid]
-          dropped      \* packets no session took: set of <<conn, k>>
-vars == <<pos, sessions, delivered, dropped>>
+          dropped,     \* packets no session took: set of <<conn, k>>
+          order        \* history: the merge (connection index of every captured packet)
+vars == <<pos, sessions, delivered, dropped, order>>
 
 (* ---------------- the code ---------------- *)
 AddrMatch(S, p) == (p.src = S.s /\ p.dst = S.c) \/ (p.src = S.c /\ p.dst = S.s)
@@ -104,7 +105,7 @@ Deliver(i) ==
   /\ pos[i] < Len(Script(i))
   /\ LET k == pos[i] + 1
          p == Script(i)[k]
-     IN /\ pos' = [pos EXCEPT ![i] = k]
+     IN /\ pos' = [pos EXCEPT ![i] = k] /\ order' = Append(order, i)
         /\ IF Conns[i].proto = "tls"
            THEN LET j == TlsTarget(p) IN
                 IF j # 0 THEN /\ delivered' = [delivered EXCEPT ![j] = Append(@, [conn |-> i, k |-> k, isserver |-> p.src = sessions[j].s, cid |-> <<>>])]
@@ -134,7 +135,7 @@ Deliver(i) ==
                         /\ UNCHANGED dropped
                 ELSE dropped' = dropped \cup {<<i, k>>} /\ UNCHANGED <<sessions, delivered>>
 
-Init == pos = [i \in 1..N |-> 0] /\ sessions = <<>> /\ delivered = <<>> /\ dropped = {}
+Init == pos = [i \in 1..N |-> 0] /\ sessions = <<>> /\ delivered = <<>> /\ dropped = {} /\ order = <<>>
 Next == \E i \in 1..N : Deliver(i)
 Spec == Init /\ [][Next]_vars
 
@@ -154,4 +155,7 @@ OwnSequence == \A j \in 1..Len(sessions) :
 OneSessionPerConn == \A a, b \in 1..Len(sessions) : sessions[a].conn = sessions[b].conn => a = b
 \* C18: the result does not depend on the order in which a set is iterated (checked as: no state has two distinct successors
 \* for the same captured packet) -- implied by DeliveredIsOwn because the real DCID is unique
+View == <<pos, sessions, delivered, dropped>>
+AllDone == \A i \in 1..N : pos[i] = Len(Script(i))
+Emit == AllDone => PrintT(ToJson([order |-> order]))
 =============================================================================
